@@ -84,6 +84,34 @@ def core(tag):
     return scs
 
 
+def prereg_family(tag):
+    """pre-registered data ids (WithDownstreamDataIDs) in lists with and without repetitions: the broker uses every alias number
+    the open request announced, then a data id the client has not seen arrives in full form (it must get a fresh alias, announced
+    once), then the pre-registered aliases are used again. Downstream.tla: PreReg is a sequence, registered once per data id."""
+    scs = []
+    ch = lambda k, f, idn, al: {"a": "sendChunk", "obj": "D1", "up": "X", "upF": "info", "upAl": 0, "seq": k,
+                                "groups": [{"f": f, "id": idn, "al": al, "pts": [[k, 5]]}]}
+    rd = {"a": "read", "g": "R1", "obj": "D1", "ctxMs": 1500, "wait": True}
+    for name, ids in (("AB", ["A", "B"]), ("AAB", ["A", "A", "B"]), ("ABA", ["A", "B", "A"]), ("AA", ["A", "A"]), ("BAAB", ["B", "A", "A", "B"])):
+        steps = [{"a": "connect", "must": True},
+                 {"a": "openDown", "obj": "D1", "qos": "reliable", "srcs": ["n1"], "ids": ids, "ackFlushMs": 20, "must": True}]
+        k = 0
+        for idn in ids:
+            k += 1
+            steps += [ch(k, "al", idn, -1), rd]
+        k += 1
+        steps += [ch(k, "id", "C", 0), rd, {"a": "sleep", "ms": 60}]
+        k += 1
+        steps += [ch(k, "al", "C", -1), rd]
+        for idn in reversed(ids):
+            k += 1
+            steps += [ch(k, "al", idn, -1), rd]
+        steps += [{"a": "sleep", "ms": 45}, {"a": "closeDown", "g": "C", "obj": "D1", "ctxMs": 3000, "wait": True}, {"a": "quiesce"},
+                  {"a": "closeConn", "g": "main2", "wait": True, "ctxMs": 2000}, {"a": "quiesce", "ms": 50}]
+        scs.append({"id": "%s/prereg/%s" % (tag, name), "kind": "iscp", "conn": {}, "steps": steps})
+    return scs
+
+
 def backpressure_family(tag):
     """the broker stops reading for longer than the ack flush interval (an ack write is blocked in the transport) while chunks with new
     upstreams / data ids are consumed; then it reads again. Everything consumed must still be acknowledged / announced exactly once."""
@@ -117,13 +145,24 @@ def run(pid="C04", mon="MonC04"):
     cfg = D.write_cfg("Downstream_%s_l1.cfg" % pid, maxc=3, readers=("R1",), cap=2, faults=0, byvalue=True, bogus=True)
     ctx.l1("Downstream", cfg, timeout=1500)
     os.remove(os.path.join(SPEC, cfg))
+    # a pre-registration list with repetitions: registered once per data id
+    cfg = D.write_cfg("Downstream_%s_l1c.cfg" % pid, maxc=3, readers=("R1",), cap=2, faults=0, byvalue=True, bogus=False, prereg="PreRegABA")
+    ctx.l1("Downstream", cfg, timeout=1500)
+    os.remove(os.path.join(SPEC, cfg))
     if not quick:
         cfg = D.write_cfg("Downstream_%s_l1b.cfg" % pid, maxc=3, readers=("R1", "R2"), cap=3, faults=0, byvalue=True, bogus=False, prereg="PreRegNone")
         ctx.l1("Downstream", cfg, timeout=2400)
         os.remove(os.path.join(SPEC, cfg))
+        # the as-coded variant (one alias per list position) must violate IdAliasInjective
+        cfg = D.write_cfg("Downstream_%s_coded.cfg" % pid, maxc=1, readers=("R1",), cap=2, faults=0, byvalue=True, bogus=False, prereg="PreRegAA", dedup=False)
+        rc = ctx.l1("Downstream", cfg, must_hold=False, timeout=600)
+        os.remove(os.path.join(SPEC, cfg))
+        if rc.violated != "IdAliasInjective":
+            raise Inconclusive("as-coded pre-registration model should violate IdAliasInjective, TLC says %s" % (rc.violated or rc.error or "nothing"))
     scs = core(pid) + family(ctx, pid, 40 if quick else 400, quick, bogus=False, maxc=6, name="sim")
     scs += family(ctx, pid, 25 if quick else 300, quick, bogus=True, maxc=4, name="bogus")
     scs += forms_family(pid, 4, "up") + forms_family(pid, 4, "id") if quick else forms_family(pid, 5, "up") + forms_family(pid, 5, "id")
+    scs += prereg_family(pid)
     if pid == "C03":
         scs += meta_family(pid)
         # unreliable downstream over a transport with a separate unreliable path (chunks arrive on the datagram-like pipe)
